@@ -88,10 +88,14 @@ End Ext.
 
 Lemma spec_xstep_ext cfg a x a' r : spec_xstep cfg a x = (a', r) -> ext a a'.
 Proof.
-  destruct x as [o|l ts]; cbn [spec_xstep].
+  destruct x as [o|l ts|l ts]; cbn [spec_xstep].
   - destruct (spec_step cfg a o) as [a1 r1] eqn:E. intros H. injection H as <- _. eapply spec_step_ext; eauto.
   - destruct (Nat.ltb l (length a)).
     + destruct (exec (spec_step cfg) spec_add (@length anode) l (length a) a (compile (cfg_auth cfg) ts)) as [a1 o1] eqn:E.
+      intros H. injection H as <- _. eapply exec_ext; eauto.
+    + intros H. injection H as <- _. apply ext_refl.
+  - destruct (Nat.ltb l (length a)).
+    + destruct (exec (spec_step cfg) spec_add (@length anode) l (length a) a (compile_decl (cfg_auth cfg) ts)) as [a1 o1] eqn:E.
       intros H. injection H as <- _. eapply exec_ext; eauto.
     + intros H. injection H as <- _. apply ext_refl.
 Qed.
